@@ -22,6 +22,17 @@ def _case(draw):
     w = draw(gens.witness_s(ins + outs, -2, 2))
     c = draw(gens.wild_contract_s(ins, outs, w, na=(0, 3), ng=(1, 4)))
     allv = ins + outs
+    if draw(st.integers(0, 11)) == 0 and (len(ins) >= 2 or len(outs) >= 2):
+        # coefficients that nearly (not exactly) cancel when the two names are identified: the small remainder must survive
+        side = ins if len(ins) >= 2 else outs
+        s_, t_ = side[0], side[1]
+        big, rest = draw(st.sampled_from([(1000000.0, 999995.0), (250000.5, 250000.0), (40000.0, 40000.25), (8192.0, 8191.96875)]))
+        extra = {outs[-1]: 1.0} if side is ins else {}
+        term = [dict({s_: big, t_: -rest}, **extra), float(draw(st.integers(1, 4)))]
+        c = {"a": [] , "g": [term] + ([[{outs[-1]: -1.0}, 3.0]] if extra else []), "i": ins, "o": outs}
+        if side is ins and draw(st.booleans()):
+            c["a"] = [[{s_: big, t_: -rest}, float(draw(st.integers(1, 4)))]]
+        return {"c": c, "maps": [[s_, t_]], "kind": "near-cancel", "witness": w}
     kind = draw(st.sampled_from(["fresh", "fresh", "existing-same-side", "existing-other-side", "absent", "same", "swap", "chain", "roundtrip"]))
     if kind == "fresh":
         maps = [[draw(st.sampled_from(allv)), "q"]]
